@@ -1,4 +1,5 @@
-//@PROBE file=src/trackers/visual_sort/track_attributes.rs test=verif_probe_visual_history clauses=visual\.history
+//@PROBE file=src/trackers/visual_sort/track_attributes.rs test=verif_probe_visual_history clauses=visual\.history units=visual_history
+//@BOUND history lengths 0..=4, 9 updates, features alternately present/absent
 #[cfg(test)]
 mod verif_probe_visual_history {
     use super::*;
